@@ -613,6 +613,8 @@ class Slicer:
             while q < hi and not s.is_p(q, ","):
                 if s.toks[q].kind == "p" and s.text[s.toks[q].s] in "([{":
                     q = s.match[q]
+                elif s.toks[q].kind == "p" and s.text[s.toks[q].s] in ")]}":
+                    break   # end of the argument list the closure is part of
                 q += 1
             self.emit_generic(body, q)
             end = q
